@@ -267,3 +267,58 @@ pub mod unions {
         Response::ok()
     }
 }
+
+/// Four values that are each CONSUMED by one constructor and BORROWED by another in the same call
+/// graph, the consumers listed after the borrowers: several nodes are parked in the same pass of the
+/// ordering algorithm, and the order in which they are taken up again decides statement order and
+/// variable numbering of the generated handler.
+pub mod consume_and_borrow {
+    use pavex::Response;
+    macro_rules! triple {
+        ($m:ident, $a:literal, $x:literal, $y:literal) => {
+            pub mod $m {
+                pub struct A;
+                pub struct X;
+                pub struct Y;
+                #[pavex::request_scoped(id = $a)]
+                pub fn a() -> A {
+                    A
+                }
+                #[pavex::request_scoped(id = $x)]
+                pub fn x(_a: A) -> X {
+                    X
+                }
+                #[pavex::request_scoped(id = $y)]
+                pub fn y(_a: &A) -> Y {
+                    Y
+                }
+            }
+        };
+    }
+    triple!(p0, "CB_A0", "CB_X0", "CB_Y0");
+    triple!(p1, "CB_A1", "CB_X1", "CB_Y1");
+    triple!(p2, "CB_A2", "CB_X2", "CB_Y2");
+    triple!(p3, "CB_A3", "CB_X3", "CB_Y3");
+    #[pavex::get(path = "/shapes/consume_and_borrow", id = "CB_HANDLER")]
+    #[allow(clippy::too_many_arguments)]
+    pub fn handler(_y0: p0::Y, _x0: p0::X, _y1: p1::Y, _x1: p1::X, _y2: p2::Y, _x2: p2::X, _y3: p3::Y, _x3: p3::X) -> Response {
+        Response::ok()
+    }
+}
+
+/// A singleton that is a function pointer whose RETURN type is the only mention of another crate
+/// (`simdep`) in the whole blueprint: codegen has to spell the type out as a field of `ApplicationState`.
+pub mod fn_pointer_state {
+    use pavex::Response;
+    fn make() -> simdep::types::Widget {
+        simdep::types::Widget(0)
+    }
+    #[pavex::singleton(id = "FP_FACTORY")]
+    pub fn factory() -> fn() -> simdep::types::Widget {
+        make
+    }
+    #[pavex::get(path = "/shapes/fn_pointer", id = "FP_HANDLER")]
+    pub fn handler(_f: &fn() -> simdep::types::Widget) -> Response {
+        Response::ok()
+    }
+}
